@@ -50,17 +50,20 @@ var dcFieldSrc = map[string]string{
 	"typeParam":     "TP T",
 	"genericInst":   "GI Gen[int]",
 	"untaggedDep":   "U Untagged",
+	// an instantiation whose type argument is a named type of the package; the generic struct is first met through this field
+	"genericNamedArg": "GN ZPair[string, Level]",
 }
 
 var dcDeps = map[string]string{
-	"structVal":     "// Inner is nested by value.\ntype Inner struct {\n\tL []int\n\tX int\n}\n",
-	"structDeep":    "// Deep nests two levels.\ntype Deep struct {\n\tIn2 Inner2\n\tM   map[string]string\n}\n\n// Inner2 is the second level.\ntype Inner2 struct {\n\tL []string\n}\n",
-	"definedScalar": "// MyInt is a defined scalar.\ntype MyInt int\n",
-	"definedMap":    "// MyMap is a defined map.\ntype MyMap map[string]int\n",
-	"definedMapM":   "// MyMapM is a defined map with a method of its own.\ntype MyMapM map[string]int\n\n// Len is hand written.\nfunc (m MyMapM) Len() int { return len(m) }\n",
-	"mapOfDefined":  "// MyInt is a defined scalar.\ntype MyInt int\n",
-	"genericInst":   "// Gen is a generic struct.\ntype Gen[X any] struct {\n\tV X\n\tL []int\n}\n",
-	"untaggedDep":   "// Untagged is a dependency without its own tag.\ntype Untagged struct {\n\tL []int\n}\n",
+	"structVal":       "// Inner is nested by value.\ntype Inner struct {\n\tL []int\n\tX int\n}\n",
+	"structDeep":      "// Deep nests two levels.\ntype Deep struct {\n\tIn2 Inner2\n\tM   map[string]string\n}\n\n// Inner2 is the second level.\ntype Inner2 struct {\n\tL []string\n}\n",
+	"definedScalar":   "// MyInt is a defined scalar.\ntype MyInt int\n",
+	"definedMap":      "// MyMap is a defined map.\ntype MyMap map[string]int\n",
+	"definedMapM":     "// MyMapM is a defined map with a method of its own.\ntype MyMapM map[string]int\n\n// Len is hand written.\nfunc (m MyMapM) Len() int { return len(m) }\n",
+	"mapOfDefined":    "// MyInt is a defined scalar.\ntype MyInt int\n",
+	"genericInst":     "// Gen is a generic struct.\ntype Gen[X any] struct {\n\tV X\n\tL []int\n}\n",
+	"untaggedDep":     "// Untagged is a dependency without its own tag.\ntype Untagged struct {\n\tL []int\n}\n",
+	"genericNamedArg": "// ZPair is generic; its name sorts after the root type's, so it is first met as a dependency.\ntype ZPair[K comparable, V any] struct {\n\tKey K\n\tVal V\n\tM   map[string]int\n}\n\n// Level is a defined scalar used as a type argument.\ntype Level int\n",
 }
 
 func dcSource(pkg string, dc dcCase) string {
@@ -236,6 +239,20 @@ func probe(p any) (o out) {
 	if ec.IsNil() || !reflect.DeepEqual(e.Elem().Interface(), ec.Elem().Interface()) {
 		o.Equal = false
 	}
+	// assigning into an empty (non-nil) container of that copy must not show in the original either
+	var emptyPaths []string
+	containers(ec.Elem(), "", func(path string, c reflect.Value) { emptyPaths = append(emptyPaths, path) })
+	for _, path := range emptyPaths {
+		before := canon.Canon(e.Elem().Interface())
+		containers(ec.Elem(), "", func(p2 string, c reflect.Value) {
+			if p2 == path {
+				mutate(c)
+			}
+		})
+		if canon.Canon(e.Elem().Interface()) != before {
+			o.Leaked = append(o.Leaked, "empty"+path)
+		}
+	}
 	origC := map[string]reflect.Value{}
 	containers(orig.Elem(), "", func(path string, c reflect.Value) { origC[path] = c })
 	var paths []string
@@ -369,6 +386,41 @@ func dcModule(from, to int, parsed []dcCase, obsOf []map[string]any, srcOf []str
 		if !stable[j] && keep != nil {
 			_ = os.WriteFile(out, keep, 0o644) // judge compilation and behaviour of the FIRST run's output
 		}
+	}
+	// later runs over the whole module in All mode (the cache file comes into play from the second of them on)
+	allGenerated := true
+	for j := from; j < to; j++ {
+		allGenerated = allGenerated && genErr[j] == "" && secondErr[j] == ""
+	}
+	if allGenerated {
+		first := map[int]string{}
+		for j := from; j < to; j++ {
+			first[j] = dcDigest(filepath.Join(root, fmt.Sprintf("dc%d", j), "zz_generated.deepcopy.go"))
+		}
+		keepAll := map[int][]byte{}
+		for j := from; j < to; j++ {
+			keepAll[j], _ = os.ReadFile(filepath.Join(root, fmt.Sprintf("dc%d", j), "zz_generated.deepcopy.go"))
+		}
+		for k := 0; k < 4; k++ {
+			r, err := runGenerators(root, scratch, fmt.Sprintf("all%d_%d", from, k), []string{"deepcopy"}, patterns, true)
+			if err != nil {
+				return err
+			}
+			if r.Err+r.LoadErr+r.Panic != "" {
+				break
+			}
+			for j := from; j < to; j++ {
+				if dcDigest(filepath.Join(root, fmt.Sprintf("dc%d", j), "zz_generated.deepcopy.go")) != first[j] {
+					stable[j] = false
+				}
+			}
+		}
+		for j := from; j < to; j++ {
+			if !stable[j] && keepAll[j] != nil {
+				_ = os.WriteFile(filepath.Join(root, fmt.Sprintf("dc%d", j), "zz_generated.deepcopy.go"), keepAll[j], 0o644)
+			}
+		}
+		_ = os.Remove(filepath.Join(root, "gengo.sum"))
 	}
 	compileErrs, _ := goBuild(root)
 	outputs := map[int]map[string]any{}
